@@ -41,11 +41,14 @@ Offered(ctx, kind, sc, declared, self) ==
                          /\ (kind = "fixture" => n # self)
                          /\ (kind = "fixture" => Fix[n].scope >= sc) }
 
-VARIABLES role, kind, fscope, declared
-vars == <<role, kind, fscope, declared>>
+VARIABLES role, kind, fscope, declared, stacked
+vars == <<role, kind, fscope, declared, stacked>>
 Init == /\ role \in Roles /\ kind \in Kinds /\ fscope \in 0..4
         /\ declared \in {{}, {"c_fun"}, {"c_mod", "local_fx"}}
         /\ (kind # "fixture" => fscope = 0)
+        \* `stacked`: another decorator sits between @pytest.fixture(scope=..) and the def line
+        /\ stacked \in BOOLEAN
+        /\ (stacked => kind = "fixture" /\ role \in {"inc_open_paren", "inc_after_comma", "inc_no_colon", "inc_no_body", "def_line", "body_stmt"})
         /\ (role \in {"inc_open_paren", "inc_usefixtures_open"} => declared = {})      \* nothing typed after the paren yet
         /\ (role \in {"module_level", "fixture_decorator", "class_header", "after_body_module_level", "pytestmark_line"}
               => (kind = "test" /\ declared = {}))
@@ -64,5 +67,5 @@ OfferedSound ==
         /\ o \cap declared = {}
         /\ (kind = "fixture" => Self \notin o /\ \A n \in o : Fix[n].scope >= fscope)
 NoneOutside == Expect.ctx = "none" => Expect.offered = {}
-EmitCase == PrintT("CASE " \o ToJson([role |-> role, kind |-> kind, scope |-> fscope, declared |-> declared, expect |-> Expect]))
+EmitCase == PrintT("CASE " \o ToJson([role |-> role, kind |-> kind, scope |-> fscope, declared |-> declared, stacked |-> stacked, expect |-> Expect]))
 =============================================================================
